@@ -28,20 +28,27 @@ def evidence_dir():
 
 def replay_dir():
     return os.environ.get("HTSIM_REPLAY_DIR") or os.path.join(VERIF, "replays")
-BATCHES = ["K0", "K1", "K2", "K3", "K4"]
+BATCHES = ["K0", "K1", "K2", "K3", "K4", "K5", "K6"]
+TABLES = {2: ["all"], 3: ["all", "linear"], 4: ["all", "linear", "star", "cycle"],
+          5: ["all", "linear", "star", "cycle", "T", "Q"], 6: ["all", "linear", "star", "ladder", "E", "H", "Q"]}
+READ_EXCS = ["FileNotFoundError", "PermissionError", "OSError", "UnicodeDecodeError", "MemoryError"]
 BATCH_DOC = {
     "K0": "plain call sequences (cold/warm/order effects only)",
     "K1": "mutating caller (F1 returned-object mutation, F2 re-presentation/drop, F6 failing requests)",
     "K2": "transient table-read failures (F3) on top of K1",
     "K3": "asynchronous exceptions at library line events (F4) on top of K1",
     "K4": "everything together",
+    "K5": "scripted per-op templates: for EVERY op of the alphabet - warm-up, call, (mutate its result, ask again) x2",
+    "K6": "scripted per-table fault sweep: for EVERY shipped table, cold - read failure of each kind / interrupt at "
+          "seeded points of the load incl. the last line event - then ask again and ask siblings",
 }
 PLAN = {
     # runs per batch; R2 keys per hash seed; R3 replays; determinism seeds; soft wall cap (s)
-    "quick": {"runs": {"K0": 120, "K1": 320, "K2": 200, "K3": 200, "K4": 200}, "r2": 24, "r2_single": 3, "r3": 8,
-              "det": 8, "cap": 420},
-    "thorough": {"runs": {"K0": 3000, "K1": 10000, "K2": 6000, "K3": 6000, "K4": 6000}, "r2": 600, "r2_single": 24,
-                 "r3": 200, "det": 64, "cap": 3300},
+    # K5: repetitions per op; K6: (read faults per table, interrupts per table)
+    "quick": {"runs": {"K0": 100, "K1": 260, "K2": 140, "K3": 140, "K4": 160}, "k5_reps": 2, "k6": (2, 4),
+              "r2": 24, "r2_single": 3, "r3": 8, "det": 8, "cap": 420},
+    "thorough": {"runs": {"K0": 3000, "K1": 9000, "K2": 5000, "K3": 5000, "K4": 6000}, "k5_reps": 40, "k6": (5, 60),
+                 "r2": 600, "r2_single": 24, "r3": 200, "det": 64, "cap": 3300},
 }
 CHUNK = 4
 R2_MOD = 8
@@ -200,12 +207,40 @@ class Check:
 
     # ---------------------------------------------------------------- batches
     def jobs(self):
+        import random
         out = []
-        for b in BATCHES:
+        for b in BATCHES[:5]:
             n = max(4, int(self.plan["runs"][b] * self.scale))
             for i in range(n):
                 out.append({"mode": "generate", "batch": b, "i": i, "tier": self.tier,
                             "seed": run_seed(self.seed, self.tier, b, i), "keep": i < 8, "want_events": True})
+        # K5: every op of the alphabet
+        reps = max(1, int(round(self.plan["k5_reps"] * self.scale)))
+        i = 0
+        for rep in range(reps):
+            for opname in sorted(OPS):
+                out.append({"mode": "generate", "batch": "K5", "i": i, "tier": self.tier, "op": opname,
+                            "seed": run_seed(self.seed, self.tier, "K5", i), "keep": i < 4, "want_events": True})
+                i += 1
+        # K6: every shipped table x faults at seeded points
+        nread, nintr = self.plan["k6"]
+        nread = max(1, int(round(nread * self.scale)))
+        nintr = max(1, int(round(nintr * self.scale)))
+        i = 0
+        for kind in ("stabilizer", "mub"):
+            for n, conns in TABLES.items():
+                for c in conns:
+                    rr = random.Random(run_seed(self.seed, self.tier, "K6t", i))
+                    faults = [{"kind": "read", "exc": e} for e in rr.sample(READ_EXCS, min(nread, len(READ_EXCS)))]
+                    for k in range(nintr):
+                        frac = 0.999999 if k == 0 else (rr.uniform(0.9, 1.0) if k == 1 else rr.random())
+                        faults.append({"kind": "intr", "scope": "circuit_lookup.py" if k % 3 != 2 else "any", "frac": frac,
+                                       "exc": "KeyboardInterrupt" if k % 2 == 0 else "MemoryError"})
+                    for f in faults:
+                        out.append({"mode": "generate", "batch": "K6", "i": i, "tier": self.tier,
+                                    "table": f"{kind}{n}-{c}.txt", "fault": f,
+                                    "seed": run_seed(self.seed, self.tier, "K6", i), "keep": i < 4, "want_events": True})
+                        i += 1
         # interleave batches so that a truncated run still covers all of them
         out.sort(key=lambda j: (j["i"], j["batch"]))
         return out
@@ -262,6 +297,10 @@ class Check:
             if rep["violations"]:
                 a["by_batch"][b]["violations"] += 1
                 self.violating.append(rep)
+            if rep.get("script_note"):
+                a["stats"]["k5_" + rep["script_note"]] = a["stats"].get("k5_" + rep["script_note"], 0) + 1
+                if rep["script_note"] == "unreachable":
+                    a.setdefault("k5_unreachable_ops", set()).add(job.get("op"))
             if job.get("keep") and rep.get("steps") is not None:
                 self.kept[(b, job["i"])] = rep
 
@@ -635,6 +674,8 @@ def evidence(chk, ref, det, state, wall, t_batches, new, kn):
             },
             "alphabet": {"ops": len(OPS), "ops_called": len(fam("op:")), "ops_never_called": sorted(set(OPS) - set(fam("op:"))),
                          "calls_by_op": fam("op:"), "public_api_audit": getattr(chk, "audit", None)},
+            "scripted": {"K5_template_reached": st.get("k5_reached", 0), "K5_template_unreachable": st.get("k5_unreachable", 0),
+                         "K5_ops_unreachable_in_some_run": sorted(a.get("k5_unreachable_ops", set()))},
             "returned_subobjects_aliased_to_library_state": st.get("returned_subobjects_aliased_to_library_state", 0),
             "cold_loads": st.get("cold_loads", 0), "tables_loaded": sorted(a["warm_files"]), "cold_loads_by_table": fam("cold:"),
             "oracle": {"R1_pristine_fork": a["oracle"], "R2": {k: ref[k] for k in ("r2_keys", "r2_agree", "r2_single", "r2_single_agree")},
